@@ -266,7 +266,7 @@ def run (cc : CtxCfg) : EncC × Res × Res :=
   (r2.1, r1.2, r2.2)
 end CtxWitness
 
-/-- **Witness of KF-C09-ctx-discard.** With the code as pinned (`restoresWriter = false`: `calculateDataSizeWithContext` returns
+/-- **Witness of KF-C09-ctx-discard** (reported by ./check C09, repaired in /repo 4876fc8). With the code as it was pinned (`restoresWriter = false`: `calculateDataSizeWithContext` returns
 the context's error with `e.w` still `io.Discard`) the `Encode` that follows a cancelled `EncodeWithContext` on a plain writer
 reports SUCCESS and the destination stays empty; with the writer restored it holds exactly the second sequence. -/
 theorem C09_ctx_discard_witness :
